@@ -15,13 +15,18 @@
     returned.  ([Proofs/EvDict.v]: the events of an object are natural in the path they are asked for, and building
     the trie from them gives the nested dict/list image [tree_of] of the object; [Proofs/EvObj.v]: converting that image
     back gives the object; [Proofs/EvObj2.v]: encrypted areas, commands, responses, and the composition with (a).)
-    NOT PROVED: the stream root ([events_to_objs] over several messages) - decided on the implementation by the oracle;
-    Python-level equality of the value classes (the model compares class names and integer values).
+    (c) the stream root: the events of a well-formed stream, split at the message roots and converted with the
+    command / response-with-that-command's-code pairing of [events_to_objs], give exactly the objects the decoder
+    returns for the messages decoded one by one - one per message, also for a last command without its response
+    ([Proofs/StreamObj.v]: the events of a message object are its root event followed by events below the root only;
+    the command code recorded in the events is the one the response was decoded with).
+    NOT PROVED: streams containing a malformed message; Python-level equality of the value classes (the model
+    compares class names and integer values).
     Both conversions of the implementation are tied to the model by correspondence (objev / evobj).
     Statement file: theorem statements, [exact], Print Assumptions only. *)
 From Coq Require Import ZArith List String Bool.
 From TV Require Import Layout.Types gen.Tables Base.Bytes Model.Monad Model.Ints Model.Decoder Model.Message Model.Pump Model.Object
-  Proofs.OpLemmas Proofs.ObjEv Proofs.EvObj Proofs.EvDict Proofs.EvObj2.
+  Spec.Value Spec.Message Proofs.OpLemmas Proofs.Sim4 Proofs.Sim10 Proofs.Sim12 Proofs.ObjEv Proofs.EvObj Proofs.EvDict Proofs.EvObj2 Proofs.StreamObj.
 Import ListNotations.
 Open Scope Z_scope.
 
@@ -68,6 +73,15 @@ Theorem C11_decoded_events_rebuild_the_returned_object :
     exists v es, decode_obj T true r bs = Some v /\ map fst evs = map Ev es /\ es = obj_to_events T r v /\ events_to_obj T r es = Some v.
 Proof. exact decoded_events_rebuild_object. Qed.
 Print Assumptions C11_decoded_events_rebuild_the_returned_object.
+
+(** (c) the stream root: every well-formed stream below the loop bound of the model *)
+Theorem C11_stream_events_rebuild_the_objects_of_its_messages :
+  forall T bs ps, msg_tables_ok T = true -> msg_named T = true -> msg_plain T = true ->
+    split_as T bs ps -> forallb (fun p => ok_leaves true (snd p)) ps = true -> Z.of_nat (List.length bs) < Z.pos stream_bound ->
+    events_to_objs T (evs_of (map fst (fst (decode T true RStream bs)))) = map (fun p => decode_obj T true (fst (fst p)) (snd (fst p))) ps /\
+    Forall (fun o => o <> None) (map (fun p => decode_obj T true (fst (fst p)) (snd (fst p))) ps).
+Proof. exact (fun T bs ps H1 H2 H3 => stream_events_rebuild_the_objects T H1 H2 H3 bs ps). Qed.
+Print Assumptions C11_stream_events_rebuild_the_objects_of_its_messages.
 
 (** the two conversions are inverse on the objects the decoder produces: any structure type ... *)
 Theorem C11_structure_round_trip :
